@@ -578,9 +578,47 @@ def _nearest_wins(ctx) -> list[Inst]:
     return out
 
 
+def _wrapper_analysis(ctx) -> list[Inst]:
+    """WRAPPER  create_attack_graph runs the apriori analysis whenever its caller asks for it: the call is guarded by
+    the function's own flag parameter(s) only.  A guard that looks at the graph ("no defense node, nothing to do")
+    second-guesses the analysis - exist / notExist steps drive it as well."""
+    fname = 'create_attack_graph'
+    if not ctx.prog.has_func(fname):
+        return []
+    f = ctx.prog.func(fname)
+    rel = f.module.relpath
+    construct = 'WRAPPER: the analysis runs whenever the caller asks for it'
+    parent = {}
+    for x in ast.walk(f.node):
+        for ch in ast.iter_child_nodes(x):
+            parent[id(ch)] = x
+    params = set(f.params) | {a.arg for a in f.node.args.kwonlyargs}
+    out = []
+    calls = [n for n in own_nodes(f.node) if isinstance(n, ast.Call) and stmt_text(n.func).split('.')[-1] == 'calculate_viability_and_necessity']
+    for c in calls:
+        cur, bad = parent.get(id(c)), None
+        while cur is not None and cur is not f.node:
+            if isinstance(cur, (ast.If, ast.IfExp, ast.While)):
+                names = {x.id for x in ast.walk(cur.test) if isinstance(x, ast.Name)}
+                if not names <= (params | {'True', 'False', 'None', 'any', 'all', 'bool', 'not'}) or \
+                        any(isinstance(x, (ast.Attribute, ast.Call, ast.GeneratorExp, ast.ListComp)) for x in ast.walk(cur.test)):
+                    bad = cur
+            cur = parent.get(id(cur))
+        if bad is not None:
+            out.append(Inst(
+                RULE, f.short, construct, 'violation',
+                msg=(f"the call of calculate_viability_and_necessity hangs on '{stmt_text(bad.test, 60)}', which looks at the "
+                     f"graph instead of the caller's flag: graphs for which the test fails keep the default labels although "
+                     f"the analysis would lower some (exist / notExist steps drive it too)"),
+                file=rel, line=bad.lineno, props=('C08', 'C16')))
+        else:
+            out.append(Inst(RULE, f.short, construct, 'ok', file=rel, line=c.lineno, props=('C08', 'C16')))
+    return out
+
+
 def run(ctx) -> list[Inst]:
     prog = ctx.prog
-    insts = _closure_functions(ctx)
+    insts = _closure_functions(ctx) + _wrapper_analysis(ctx)
     insts += _nearest_wins(ctx)
     insts += _closure_pass(ctx)
     insts += _member_direction(ctx)
